@@ -315,17 +315,29 @@ func c02arch(c *core.Ctx, p *load.Program, suffix string) {
 			c.Fatal("unresolved anchor: ua.Variant.Decode / arrayDimensions")
 		} else {
 			elemChecked, lenChecked := false, false
-			for _, b := range vd.Blocks {
+			var vdBlocks []*ssa.BasicBlock
+			for _, g := range withHelpers(vd) {
+				vdBlocks = append(vdBlocks, g.Blocks...) // the checks may live in a private helper method of Decode
+			}
+			for _, b := range vdBlocks {
 				ifi, ok := b.Instrs[len(b.Instrs)-1].(*ssa.If)
 				if !ok {
 					continue
 				}
-				cmp, _, ok := ssax.AsCmp(ifi.Cond)
-				if !ok || cmp.Op != token.LSS {
+				cmp, neg, ok := ssax.AsCmp(ifi.Cond)
+				if !ok || neg {
 					continue
+				}
+				if _, constLeft := ssax.ConstInt(cmp.X); constLeft {
+					cmp = ssax.Cmp{Op: ssax.SwapOp(cmp.Op), X: cmp.Y, Y: cmp.X}
 				}
 				k, isK := ssax.ConstInt(cmp.Y)
 				if !isK {
+					continue
+				}
+				if cmp.Op == token.LEQ {
+					k++ // x <= k-1 is x < k
+				} else if cmp.Op != token.LSS {
 					continue
 				}
 				// element: load of &arrayDimensions[i]
@@ -615,6 +627,39 @@ func installCursorHook() {
 			if cal := ssax.Callee(x); cal != nil && cal.Name() == "Pos" {
 				return true
 			}
+		case *ssa.Parameter:
+			// a private helper that continues decoding at an offset it is given: the offset is a valid cursor of the
+			// slice parameter if it is one of the slice argument at every call site
+			f := x.Parent()
+			sp, isP := ssax.Strip(s).(*ssa.Parameter)
+			if !isP || sp.Parent() != f || f.Object() == nil || f.Object().Exported() {
+				return false
+			}
+			li, si := -1, -1
+			for i, q := range f.Params {
+				if q == x {
+					li = i
+				}
+				if q == sp {
+					si = i
+				}
+			}
+			callers := ipCallers(f)
+			if len(callers) == 0 || li < 0 || si < 0 {
+				return false
+			}
+			for _, k := range callers {
+				for _, cs := range ssax.Calls(k) {
+					if cs.Common().StaticCallee() != f {
+						continue
+					}
+					args := cs.Common().Args
+					if li >= len(args) || si >= len(args) || !valid(args[li], args[si], map[*ssa.Phi]bool{}, d+1) {
+						return false
+					}
+				}
+			}
+			return true
 		}
 		return false
 	}
